@@ -56,6 +56,13 @@ class StateVector(State[complex, torch.Tensor]):
         nqudits = math.log2(self.data.view(-1).shape[0])
         return int(nqudits)
 
+    def __deepcopy__(self, memo: dict) -> StateVector:
+        # torch refuses to deep-copy tensors that are part of an autograd graph;
+        # a clone keeps the copy (e.g. a StateResult) differentiable.
+        return type(self)(
+            self.data.clone(), gpu=self.data.is_cuda, eigenstates=self.eigenstates
+        )
+
     def _normalize(self) -> None:
         """Normalizes the state vector to ensure it has unit norm.
 
